@@ -241,7 +241,14 @@ func c12Table() []*c12Entry {
 			v, err := x.cli.Del(x.ctx, c12ss(a, 0)...).Result()
 			return c12R(int(v)), err
 		}})
-	add(&c12Entry{kv: "Del", weight: 3, doc: "Del(keys...) over the shards: every named key removed (state comparison), count = number removed; errors are aggregated per key, so only error/no error is compared",
+	add(&c12Entry{kv: "Del", weight: 3,
+		wire: func(a []any) [][]string { // one DEL per named key, in order, each on the key's shard
+			var out [][]string
+			for _, k := range c12ss(a, 0) {
+				out = append(out, []string{"DEL", k})
+			}
+			return out
+		}, doc: "Del(keys...) over the shards: every named key removed (state comparison), count = number removed; errors are aggregated per key, so only error/no error is compared",
 		gen: delGen,
 		custom: func(x *c12X, a []any, got []any, gotErr error) (bool, string) {
 			v, werr := x.cli.Del(x.ctx, c12ss(a, 0)...).Result()
@@ -322,7 +329,7 @@ func c12Table() []*c12Entry {
 			v, err := x.cli.Ping(x.ctx).Result()
 			return c12R(err == nil && v == "PONG"), nil
 		}})
-	add(&c12Entry{name: "String", noCtx: true, weight: 1, doc: "address of the node (not a command)",
+	add(&c12Entry{name: "String", noCtx: true, noWire: true, weight: 1, doc: "address of the node (not a command)",
 		gen: func(g *c12Gen) []any { return c12R() },
 		custom: func(x *c12X, a []any, got []any, gotErr error) (bool, string) {
 			if len(got) != 1 || got[0] != any(x.addrA) {
@@ -654,7 +661,8 @@ func c12Table() []*c12Entry {
 			v, err := x.cli.SMembers(x.ctx, c12s(a, 0)).Result()
 			return c12R(v), err
 		}})
-	add(&c12Entry{name: "SPop", kv: "SPop", weight: 2, doc: "SPop(key) -> some member, removed | redis.Nil (membership/cardinality compared; the same member is then removed on side B)",
+	add(&c12Entry{name: "SPop", kv: "SPop", weight: 2,
+		wire: func(a []any) [][]string { return [][]string{{"SPOP", c12s(a, 0)}} }, doc: "SPop(key) -> some member, removed | redis.Nil (membership/cardinality compared; the same member is then removed on side B)",
 		gen: func(g *c12Gen) []any {
 			k := g.key("set")
 			if g.emptySet(k) {
@@ -694,7 +702,8 @@ func c12Table() []*c12Entry {
 			x.cli.SRem(x.ctx, k, mem) // keep side B in step; the per-command state comparison checks the removal on side A
 			return true, ""
 		}})
-	add(&c12Entry{name: "SRandMember", kv: "SRandMember", doc: "SRandMemberN(key,count) -> []string (length and membership compared; distinct when count>0)",
+	add(&c12Entry{name: "SRandMember", kv: "SRandMember",
+		wire: func(a []any) [][]string { return [][]string{{"SRANDMEMBER", c12s(a, 0), strconv.Itoa(c12i(a, 1))}} }, doc: "SRandMemberN(key,count) -> []string (length and membership compared; distinct when count>0)",
 		gen: func(g *c12Gen) []any {
 			k := g.key("set")
 			if g.emptySet(k) {
